@@ -336,20 +336,23 @@ class _Store:
 # True, removes exactly the named observation from the comparison (set to False to see the violation):
 # * a shape dimension that no component of the class has (modArea=None everywhere) is not stored, and the loader has
 #   created the component with every dimension 0: getDimension('modArea') is None before saving and 0 after loading.
-KNOWN_DEFECT_unset_dimension_loads_as_zero = True
+KNOWN_DEFECT_unset_dimension_loads_as_zero = False  # repaired in /repo (fix: 0cf18d4)
 # * Core.processLoading(dbLoad=True) overwrites the stored core.p.maxAssemNum ("track the highest assem Num so when we
 #   load from a DB the future assemNums remain constant", Core.add) with the maximum over the assemblies that are in
 #   the core NOW: after the assembly with the highest number was discharged to the pool the loaded value is lower than
 #   the saved one (the Reactor-level counter, which numbers new assemblies, is restored correctly).
-KNOWN_DEFECT_core_maxAssemNum_recomputed_on_load = True
+KNOWN_DEFECT_core_maxAssemNum_recomputed_on_load = False  # repaired in /repo (fix: 15fbd4e)
 # * Database._compose places every child of a parent that has a grid with parent.spatialGrid[location], whatever the
 #   stored location TYPE is: a child at free coordinates (CoordinateLocation) inside a gridded parent comes back as an
 #   IndexLocation whose indices are the coordinates.  Blueprint-built pin blocks put their non-lattice components
-#   (duct, coolant) at CoordinateLocation(0,0,0): same point, other locator class; non-zero free coordinates would
-#   come back at another point.  While True, exactly that zero case is rendered as the index location it loads as.
-KNOWN_DEFECT_free_coordinates_in_gridded_parent_load_as_indices = True
-#   When False, "a component of a pin block is moved to free coordinates (1.5, 2.0, 0.0)" joins the solver's choice of
-#   what happened before the snapshot (it comes back 2 cm away).
+#   (duct, coolant) at CoordinateLocation(0,0,0): same point, other locator class; non-zero free coordinates come
+#   back at another point.  RECORDED in /verif/known_findings.jsonl (two regions): the obligation is live.  The
+#   comparison of grid locations is stated as two obligations: "a child at free coordinates inside a gridded parent
+#   keeps its kind of locator" holds the differences of exactly those children of the SAVED reactor whose locator
+#   differs in nothing but its class; everything else (any other object, any other difference) is under "same grid
+#   locations".  "A component of a pin block is moved to free coordinates (1.5, 2.0, 0.0)" is one of the things the
+#   solver may choose to have happened before the snapshot (it comes back 2 cm away).
+KNOWN_DEFECT_free_coordinates_in_gridded_parent_load_as_indices = False
 
 
 def norm(v):
@@ -450,11 +453,9 @@ def observe(r):
             multi = isinstance(loc, grids.MultiIndexLocation)
             kind = type(loc).__name__
             where = q(lambda: [list(x.indices) for x in loc]) if multi else q(lambda: list(loc.indices))
-            if KNOWN_DEFECT_free_coordinates_in_gridded_parent_load_as_indices and kind == "CoordinateLocation" \
-                    and o.parent is not None and o.parent.spatialGrid is not None and where == ("seq", [0.0, 0.0, 0.0]):
-                kind, where = "IndexLocation", ("seq", [0, 0, 0])
             obs[LOC][path] = (kind, where, q(lambda: [x.getGlobalCoordinates() for x in loc]) if multi else
-                              q(loc.getGlobalCoordinates), loc.grid is (o.parent.spatialGrid if o.parent is not None else None))
+                              q(loc.getGlobalCoordinates), loc.grid is (o.parent.spatialGrid if o.parent is not None else None),
+                              o.parent is not None and o.parent.spatialGrid is not None)
         for pd in persistent(o):
             if KNOWN_DEFECT_core_maxAssemNum_recomputed_on_load and pd.name == "maxAssemNum" \
                     and type(o).__name__ == "Core":
@@ -506,11 +507,24 @@ def differences(A, B, aspect):
     return out
 
 
+def only_the_locator_class_of_free_coordinates_in_a_gridded_parent(x, y):
+    """x (reference side) is the location of a child at free coordinates inside a gridded parent, and y differs from
+    it in nothing but the class of the locator"""
+    return (isinstance(x, tuple) and isinstance(y, tuple) and len(x) == len(y) == 5 and x[0] == "CoordinateLocation"
+            and x[4] is True and same(x[1:], y[1:], 1e-10))
+
+
 def compare(ctx, what, A, B):
     for aspect in ASPECTS:
         d = differences(A, B, aspect)
         # the first differences are shown as the observed value of a violated obligation
-        ctx.check_eq("%s: same %s" % (what, aspect), [(k, str(x)[:160], str(y)[:160]) for k, x, y in d[:3]], [])
+        show = lambda dd: [(k, str(x)[:160], str(y)[:160]) for k, x, y in dd[:3]]
+        if aspect == LOC:
+            kindOnly = [t for t in d if only_the_locator_class_of_free_coordinates_in_a_gridded_parent(t[1], t[2])]
+            d = [t for t in d if t not in kindOnly]
+            ctx.check_eq("%s: a child at free coordinates inside a gridded parent keeps its kind of locator" % what,
+                         show(kindOnly), [])
+        ctx.check_eq("%s: same %s" % (what, aspect), show(d), [])
 
 
 # ---------------------------------------------------------------------------------------------------------------------
@@ -615,10 +629,7 @@ WHICH_ASSEMBLY = ["none", "second assembly (fuel b)", "first assembly (fuel a)",
 ASSIGN_LEVELS = ["none", "reactor", "core", "spent fuel pool", "assembly", "fuel block", "pinned block",
                  "fuel component", "linked component", "derived-shape component", "two blocks"]
 FREE_COORDINATES = "component moved to free coordinates inside a pin block"
-
-
-if not KNOWN_DEFECT_free_coordinates_in_gridded_parent_load_as_indices:
-    ASSIGN_LEVELS.append(FREE_COORDINATES)
+ASSIGN_LEVELS.append(FREE_COORDINATES)
 
 
 def _assembly(assems, k):
@@ -675,10 +686,11 @@ THOROUGH = [dict(modes=(ro,), assemblies=ALL, levels=(lv,), atMost=3) for ro in 
                        "by 75 K; which was discharged to the spent fuel pool; which object (none / reactor / core / "
                        "pool / assembly / block / pinned block / fuel, linked or derived-shape component / two blocks "
                        "with arrays of different lengths) had every free persistent parameter assigned a new value "
-                       "of its kind; load mode (plain with cs and blueprints handed over / read-only with both "
+                       "of its kind, or (instead) a component of a pin block was moved to free coordinates "
+                       "(1.5, 2.0, 0.0) inside the block's grid; load mode (plain with cs and blueprints handed over / read-only with both "
                        "re-read from the file).  Quick tier: any 2 of the four assembly-level changes happening to "
                        "the 3rd assembly, or one assignment (core, pool, assembly, pinned block, fuel component, two "
-                       "blocks), each with both load modes; thorough: any 3 of the five kinds, each on any assembly "
+                       "blocks, free coordinates), each with both load modes; thorough: any 3 of the five kinds, each on any assembly "
                        "/ any object.  Parameter values concrete.",
          stubs=STUBS, max_paths=5000, raises=(), instances={"quick": QUICK, "thorough": THOROUGH})
 def saved_reactor_loads_back_observationally_equal(ctx, modes, assemblies, levels, atMost):
